@@ -72,13 +72,19 @@ Definition ast_truthy (e : val) : bool :=
 
 (** Wal.eval(sexpr, **kw) with a selectable pass pipeline *)
 Definition wal_eval_with (fl : passes_flags) (e : val) (kw : list (string * val)) : M val :=
-  mapM (fun p => st <- get_st ;;
+  shadowed <- mapM (fun p => st <- get_st ;;
                  match lookup_frame st global_id (fst p) with
-                 | Some _ => env_write global_id (fst p) (snd p)
-                 | None => env_define global_id (fst p) (snd p)
-                 end) kw ;;;
+                 | Some _ => old <- env_read global_id (fst p) ;;
+                             env_write global_id (fst p) (snd p) ;;; ret [(fst p, old)]
+                 | None => env_define global_id (fst p) (snd p) ;;; ret []
+                 end) kw ;;
   r <- (if ast_truthy e then run_form fl e else ret VNone) ;;
-  mapM (fun p => env_undefine global_id (fst p)) kw ;;;
+  (* dict semantics: a repeated keyword cannot occur; the last saved value wins *)
+  let sh := fold_left (fun acc kv => aset (fst kv) (snd kv) acc) (List.concat shadowed) [] in
+  mapM (fun p => match alookup (fst p) sh with
+                 | Some old => env_write global_id (fst p) old
+                 | None => env_undefine global_id (fst p)
+                 end) kw ;;;
   ret r.
 
 Definition wal_eval := wal_eval_with all_passes.
@@ -94,7 +100,7 @@ Definition wal_run (e : val) (kw : list (string * val)) : M val :=
 
 (** Wal.run_file / the wal command on a source file / walc + .wo *)
 Definition api_run_file (forms : list val) : M val :=
-  wal_eval (WL (VOp ODo :: forms)) [].
+  fold_left (fun acc e => acc ;;; wal_eval e []) forms (ret VNone).
 
 (** main(): each form goes through the passes, then through Wal.eval (passes again) *)
 Definition cli_run_forms (forms : list val) : M unit :=
